@@ -23,6 +23,11 @@ func includeTag(source string) (func(io.Writer, render.Context) error, error) {
 		filename := filepath.Join(filepath.Dir(ctx.SourceFile()), rel)
 		s, err := ctx.RenderFile(filename, map[string]any{})
 		if err != nil {
+			// A break or continue that escapes the included template has no loop of its own: it is an
+			// error of that template, not a command for a loop of the including one.
+			if c, ok := err.(interface{ Cause() error }); ok && (c.Cause() == errLoopBreak || c.Cause() == errLoopContinueLoop) {
+				return ctx.Errorf("%s in %s", c.Cause(), rel)
+			}
 			return err
 		}
 		_, err = io.WriteString(w, s)
